@@ -43,6 +43,7 @@ fn base_sc() -> Scenario {
         lag_publishes: vec![],
         poller: false,
         gate_vrf: false,
+        post_gates: false,
         faults: 0,
         faultable: no_fault,
     }
@@ -95,6 +96,25 @@ fn cases<TC: ModelCfg>(quick: bool) -> Vec<Case> {
                 ];
                 out.push(Case { name: format!("interleave/{wname}/{iname}/{rname}"), sc, bound: if quick { 2 } else { 3 } });
             }
+        }
+    }
+    // the same with the delivery of database responses as separate scheduling points (read-miss cache
+    // fills racing the commit's write-through), on the cached instances
+    for (iname, inst, wcache, rcache) in [("clone_cache", Inst::WriterClone, CacheCfg::Default, CacheCfg::None), ("readonly_cache", Inst::ReadOnly, CacheCfg::None, CacheCfg::Default)] {
+        for (rname, rop) in reader_ops::<TC>(1) {
+            if quick && !matches!(rname.as_str(), "lookup_a" | "history_a_complete") {
+                continue;
+            }
+            let mut sc = base_sc();
+            sc.initial = initial.clone();
+            sc.writer_cache = wcache;
+            sc.reader_cache = rcache;
+            sc.post_gates = true;
+            sc.actors = vec![
+                Actor { name: "W".into(), inst: Inst::Writer, ops: vec![Op::Publish(w1.clone())] },
+                Actor { name: "R".into(), inst, ops: vec![rop.clone(), rop.clone()] },
+            ];
+            out.push(Case { name: format!("response_gates/{iname}/{rname}"), sc, bound: 2 });
         }
     }
     // writer whose commit fails, reader on the same (cached) manager and on a cached read-only instance
